@@ -294,6 +294,23 @@ CHECKS = {
         technique="Lean 4 proof of the laws of the documented sequence operations + differential runs of the real Duden library against them",
         ref="§5 C17",
     ),
+    "C18": dict(
+        text=("Proof (Lean 4) about DDP.Abi.signature, the calling convention as a function from a DDP signature to a C prototype over the "
+              "types published in ddptypes.h: the five primitive types — and only they — travel by value (primitives_by_value, "
+              "by_value_iff), Text, lists, Kombinationen and Variable by pointer (nonprimitives_by_pointer), a Referenz parameter is "
+              "always a pointer (referenz_is_pointer), a non-primitive result comes back through a LEADING out-pointer with a void C "
+              "function and one more C parameter (nonprimitive_result_out_pointer), primitive results by value, parameters keep their "
+              "order (parameter_order). Tie: random foreign signatures (1-3 parameters of 10 kinds, value or Referenz, 10 result kinds); "
+              "the C prototype is the one the Lean model prints, the C body is written against the published headers only; the "
+              "callee prints what it receives, changes what it gets by Referenz, builds the result; the DDP program prints result and "
+              "every argument after the call (value arguments unchanged, Referenz arguments changed). Ownership is judged by the heap "
+              "ledger of C05 linked into the program (each non-Referenz argument released exactly once by the caller, the result "
+              "owned by the caller, nothing live at exit) and by AddressSanitizer."),
+        note=TB + "The code generator's lowering of extern declarations is reached by correspondence only; struct layout is the platform "
+             "C ABI; lists of Kombinationen and Variable results are not generated.",
+        technique="Lean 4 proof about the calling-convention function + generated C callees and DDP callers run with the heap ledger and sanitizers",
+        ref="§5 C18",
+    ),
     "C19": dict(
         text=("Proof (Lean 4): the three hand-written escape tables (scanner case list, parseChar, parseString — regenerated from the "
               "source) agree with each other and with the specification's escape map for every character; all images are single bytes (the "
